@@ -95,7 +95,7 @@ def step (d : DSt) (line : String) : DSt × String :=
   | "init" :: pl :: nl :: specs =>
     match nl.toNat?, specs.mapM (parseTask (pl == "1")) with
     | some nl, some ts =>
-      let s : State := { tasks := fun i => ts.getD i {}, fuel := ts.length + nl + 1,
+      let s : State := { tasks := fun i => ts.getD i {}, fuel := 2 * (ts.length + nl) + 1,
                          prioLoop := pl == "1" }
       ({ s := s, nT := ts.length, nL := nl }, "ok")
     | _, _ => (d, "bad-op")
